@@ -181,7 +181,9 @@ def run_job(target, case, opts=None):
         out["func_hash"] = func_hash(fv0.node)
         out["lines"] = [fv0.node.lineno, fv0.node.end_lineno]
     out["symex_s"] = time.time() - t0
+    out["t_start"] = t0
     discharge(out, opts)
+    out.pop("t_start", None)
     out["wall_s"] = time.time() - t0
     return finish(out)
 
@@ -218,7 +220,13 @@ def run_lemma(name, opts=None):
 def discharge(out, opts):
     timeout = opts.get("timeout_ms", 8000)
     second = opts.get("second_opinion", False)
+    # the solver budget of one job: what is left of the job's time limit (obligations that do not get their turn are
+    # reported as unknown instead of losing the whole job to the alarm)
+    budget_end = out.get("t_start", time.time()) + 0.85 * opts.get("job_timeout_s", 240)
     for ob in out["obligations"]:
+        if time.time() > budget_end:
+            ob.status, ob.backend, ob.seconds, ob.model, ob.reason = "unknown", "not attempted", 0.0, None, "solver budget of the job exhausted"
+            continue
         try:
             if ob.kind == "vacuity":
                 # must NOT be provable; `unknown` is accepted (no model for quantified hypotheses)
